@@ -86,6 +86,10 @@ def legal(op, ver, sender, seq, i, extra=None, after_finished=False,
             return None               # clients may ignore HelloRequest
         if tls13 and post and extra in (NST, KEY_UPDATE) and sender == "s":
             return True
+        if extra == CERT_REQ and sender == "s" and tls13 and post:
+            # post-handshake authentication request: legal iff the client
+            # offered post_handshake_auth, which the sequence does not show
+            return None
         if extra == CERT_REQ and sender == "s" and tls13:
             # RFC 8446 4.3.2: optional, right after EncryptedExtensions
             if m in (CERT, COMPRESSED_CERT) and i > 0 and seq[i - 1] == EE \
@@ -111,8 +115,6 @@ def legal(op, ver, sender, seq, i, extra=None, after_finished=False,
         if a is False:
             return False
         rest = seq[:i] + seq[i + 1:]
-        if i >= len(rest):
-            return False
         b = legal("insert", ver, sender, rest, i, extra, kex=kex)
         if b is False:
             return False
